@@ -53,7 +53,7 @@ def gen(tape: Tape, tier: str) -> dict:
         max_n=36 if tier == "thorough" else 24,
         max_groups=8 if tier == "thorough" else 6,
         max_ndim=2,
-        by_dask_p=0.1,
+        by_dask_p=0.25,
         expected_modes=("none", "none", "exact", "superset", "subset"),
         missing_label_p=0.15,
         sort_choices=(True, False),
